@@ -444,6 +444,15 @@ type LemmaSpec struct {
 	Induct   string // variable to do induction on (nat, by predecessor)
 	Uses     []string
 	Pkg      string
+	Calls    []LemmaCall
+}
+
+// LemmaCall is "call r = F(args)" inside a lemma: F is applied by contract.
+type LemmaCall struct {
+	Result string
+	Fn     string
+	Args   []Expr
+	Src    string
 }
 
 type ContractSet struct {
@@ -460,7 +469,7 @@ func newContractSet() *ContractSet {
 var clauseKeywords = map[string]bool{
 	"requires": true, "ensures": true, "modifies": true, "loop": true, "invariant": true,
 	"decreases": true, "func": true, "extern": true, "spec": true, "lemma": true, "pure": true,
-	"inline": true, "panics": true, "trusted": true, "induction": true, "use": true, "let": true,
+	"inline": true, "panics": true, "trusted": true, "induction": true, "use": true, "let": true, "call": true,
 }
 
 // parseContractText parses the body of one or more /*@ ... @*/ blocks (already
@@ -582,6 +591,23 @@ func (cs *ContractSet) parseContractText(text, pkgPath, file string) error {
 				return fmt.Errorf("%s: bad let: %s", file, rest)
 			}
 			curF.Lets = append(curF.Lets, ParamDecl{Name: strings.TrimSpace(rest[:i]), Type: strings.TrimSpace(rest[i+1:])})
+		case "call":
+			if curLem == nil {
+				return fmt.Errorf("%s: call outside lemma", file)
+			}
+			i := strings.Index(rest, "=")
+			if i < 0 {
+				return fmt.Errorf("%s: bad call clause %q", file, rest)
+			}
+			ce, err := parseExpr(strings.TrimSpace(rest[i+1:]))
+			if err != nil {
+				return fmt.Errorf("%s: call: %v", file, err)
+			}
+			call, ok := ce.(*ECall)
+			if !ok {
+				return fmt.Errorf("%s: call clause needs F(args)", file)
+			}
+			curLem.Calls = append(curLem.Calls, LemmaCall{Result: strings.TrimSpace(rest[:i]), Fn: call.Fn, Args: call.Args, Src: rest})
 		case "modifies":
 			names := splitComma(rest)
 			if curL != nil {
@@ -652,14 +678,33 @@ func splitLabel(s string) (label, rest string) {
 	return "", s
 }
 
+// splitComma splits at top-level commas (not inside parentheses or quotes).
 func splitComma(s string) []string {
 	var out []string
-	for _, p := range strings.Split(s, ",") {
-		p = strings.TrimSpace(p)
+	depth := 0
+	inStr := false
+	start := 0
+	flush := func(end int) {
+		p := strings.TrimSpace(s[start:end])
 		if p != "" {
 			out = append(out, p)
 		}
 	}
+	for i := 0; i < len(s); i++ {
+		switch c := s[i]; {
+		case c == '"':
+			inStr = !inStr
+		case inStr:
+		case c == '(' || c == '[':
+			depth++
+		case c == ')' || c == ']':
+			depth--
+		case c == ',' && depth == 0:
+			flush(i)
+			start = i + 1
+		}
+	}
+	flush(len(s))
 	return out
 }
 
